@@ -160,7 +160,14 @@ class P(Prop):
                 parts = b"\r\n".join(b"--String_separator\r\nContent-Type: text/plain\r\nContent-Range: bytes %d-%d/%d\r\n\r\n" % (rnd.randint(0, 3), rnd.randint(3, 9), rnd.randint(9, 20)) + rnd.choice([b"x", b"ab\r\ncd", b"\xff"]) for _ in range(rnd.randint(0, 3)))
                 line = "rmp " + hx(m(parts + b"\r\n--String_separator"))
             elif k == "parse": line = "parse " + hx(m(self.request(rnd)))
-            elif k == "rp": line = "rp " + hx(m(self.response(rnd)))
+            elif k == "rp":
+                doc = self.response(rnd)
+                if b"boundary=\r\n" in doc and rnd.random() < 0.6 and not rb:
+                    # the empty boundary parameter: every line "contains" it, the empty line at the end of the stream too - cut inside a part's body
+                    cut = doc.rfind(b"\r\n\r\n") + 4 + rnd.choice([0, 1, 2, 3])
+                    line = "rp " + hx(doc[:cut] + rnd.choice([b"", b"\xff", b"\xff\n", b"x", b"\r\n"]))
+                else:
+                    line = "rp " + hx(m(doc))
             elif k in ("hdr", "cd", "crv"): line = "%s %s" % (k, hx(text(m(self.small(rnd, k)))))
             elif k == "rgspec": line = "rgspec %d %s" % (rnd.choice([0, 1, 10, 2 ** 32, 2 ** 64 - 1]), hx(text(m(self.small(rnd, k)))))
             elif k == "cfgb": line = "cfgb " + hx(m(self.small(rnd, k)))
